@@ -2616,6 +2616,242 @@ fn signed_domain(args: &Args) {
         "signed_with_identical_htlcs": dup_signed, "signed_something_else": signed_other, "monitor_failures": monitor_failures}));
 }
 
+// ------------------------------------------------------------------ chainlife: the on-chain clause against the harness's own chain record
+
+/// A real node with the OnchainValidatorFactory on the KVV persister (MemoryKVVStore, JSON): one
+/// outbound channel whose funding transaction the harness mines or does not mine; blocks go
+/// through ChainTracker::add_block with honest proofs and with forged ones (same header, proof
+/// over "filler + funding" although the header does not commit to the funding transaction);
+/// restarts from the store anywhere; a close (spend of the funding output) may be mined.
+/// Requests for counterparty commitment 1 are judged by the harness's OWN record of the best chain
+/// (is the funding transaction in one of its blocks, is its output spent) — never by the
+/// signer's funding_depth.
+fn chainlife_domain(args: &Args) {
+    use lightning_signer::bitcoin::absolute::LockTime;
+    use lightning_signer::bitcoin::hashes::Hash;
+    use lightning_signer::bitcoin::transaction::Version;
+    use lightning_signer::bitcoin::{Amount, Block, OutPoint, Sequence, Transaction, TxIn, TxOut, Txid, Witness};
+    use lightning_signer::txoo::proof::TxoProof;
+    use lightning_signer::util::test_utils::make_block;
+    let mut rng = Rng::new(args.seed ^ 0xc4a1711fe);
+    let release = !overflow_checks();
+    let mut dist: std::collections::BTreeMap<String, u64> = Default::default();
+    let (mut monitor_failures, mut restarts, mut forged_refused, mut forged_accepted, mut signed_beyond_initial) = (0u64, 0u64, 0u64, 0u64, 0u64);
+    let cv = 3_000_000u64;
+    let filler = |height: u32| Transaction { version: Version::non_standard(0), lock_time: LockTime::from_consensus(height), input: vec![], output: vec![] };
+    for id in 0..args.n {
+        let pol = Pol {
+            min_delay: 4,
+            max_delay: 2016,
+            max_channel_size_sat: 1_000_000_001,
+            max_htlcs: 1000,
+            max_htlc_value_sat: 16_777_216,
+            use_chain_state: false,
+            min_feerate: 253,
+            max_feerate: 333_333,
+            rules: vec![],
+        };
+        let mut seed = [0u8; 32];
+        seed[0] = (id % 251) as u8;
+        seed[1] = 0xc7;
+        let mut world = World::new(real_policy(&pol), seed, KeyDerivationStyle::Native);
+        world.onchain = true;
+        let mut node = world.new_node();
+        let node_id = node.get_id();
+        let funding_tx = Transaction {
+            version: Version::TWO,
+            lock_time: LockTime::ZERO,
+            input: vec![TxIn {
+                previous_output: OutPoint { txid: Txid::from_slice(&[7u8; 32]).unwrap(), vout: id as u32 },
+                script_sig: ScriptBuf::new(),
+                sequence: Sequence::ZERO,
+                witness: Witness::default(),
+            }],
+            output: vec![TxOut { value: Amount::from_sat(cv), script_pubkey: ScriptBuf::new() }],
+        };
+        let funding_outpoint = OutPoint { txid: funding_tx.compute_txid(), vout: 0 };
+        let closing_tx = Transaction {
+            version: Version::TWO,
+            lock_time: LockTime::ZERO,
+            input: vec![TxIn { previous_output: funding_outpoint, script_sig: ScriptBuf::new(), sequence: Sequence::ZERO, witness: Witness::default() }],
+            output: vec![TxOut { value: Amount::from_sat(cv - 1000), script_pubkey: ScriptBuf::new() }],
+        };
+        // deliver one block; `claimed` = transactions the proof is built over (None: the real ones)
+        let deliver = |node: &Arc<Node>, real: Vec<Transaction>, claimed: Option<Vec<Transaction>>| -> bool {
+            let mut tracker = node.get_tracker();
+            let (tip, height) = (tracker.tip().clone(), tracker.height());
+            let mut txs = vec![filler(height + 1)];
+            txs.extend(real);
+            let block = make_block(tip.0, txs);
+            let proof_block = match claimed {
+                None => block.clone(),
+                Some(c) => {
+                    let mut t = vec![filler(height + 1)];
+                    t.extend(c);
+                    Block { header: block.header, txdata: t }
+                }
+            };
+            let proof = TxoProof::prove_unchecked(&proof_block, &tip.1, height + 1);
+            let ok = matches!(catch_unwind(AssertUnwindSafe(|| tracker.add_block(block.header, proof))), Ok(Ok(_)));
+            // what the protocol handler does after each block
+            world.persister.update_tracker(&node_id, &tracker).expect("persist tracker");
+            ok
+        };
+        for _ in 0..3 {
+            assert!(deliver(&node, vec![], None), "honest block");
+        }
+        let peer = [2u8; 33];
+        let (channel_id, _) = node.new_channel(1 + id as u64, &peer, &node).expect("new_channel");
+        let s = Setup { is_outbound: true, channel_value_sat: cv, push_value_msat: 0, holder_delay: 6, cp_delay: 7, ctype: 1, shutdown: 0 };
+        let mut setup = real_setup(&s, None);
+        setup.funding_outpoint = funding_outpoint;
+        node.setup_channel(channel_id.clone(), None, setup, &DerivationPath::master()).expect("setup_channel");
+        let (flo, fhi) = fee_window(pol.min_feerate, pol.max_feerate, weight(1, 0));
+        let fee = (flo + fhi) / 2;
+        let to_holder = clamp64(cv as u128 - fee);
+        let info = Info { cp_broadcaster: true, to_countersigner: to_holder, to_broadcaster: 0, offered: vec![], received: vec![], feerate: 1000 };
+        let point = make_test_pubkey(10);
+        // ---- the harness's own record of the best chain (blocks since the channel exists)
+        let mut funding_block: Option<usize> = None; // index of the block that holds the funding tx
+        let mut closing_block: Option<usize> = None;
+        let mut nblocks: usize = 0;
+        let mut est = Est { next_holder: 0, next_cp_commit: 0, next_cp_revoke: 0, closed: false, cp_point: 0, cp_info_same: false, holder_info: 0 };
+        let mut steps: Vec<Value> = vec![];
+        let mut coq_terms: Vec<String> = vec![];
+        let mut viols: Vec<String> = vec![];
+        let len = 6 + rng.below(8);
+        let mut plan: Vec<&str> = vec!["sign0"];
+        for _ in 0..len {
+            plan.push(*rng.pick(&["sign1", "sign1", "sign1", "block", "block", "fund", "forge", "forge", "restart", "restart", "close", "forge-no-close"]));
+        }
+        plan.push("sign1");
+        for op in plan {
+            match op {
+                "block" => {
+                    assert!(deliver(&node, vec![], None), "honest block");
+                    nblocks += 1;
+                    steps.push(json!({"op": "block (honest, filler only)"}));
+                }
+                "fund" if funding_block.is_none() => {
+                    assert!(deliver(&node, vec![funding_tx.clone()], None), "honest funding block");
+                    funding_block = Some(nblocks);
+                    nblocks += 1;
+                    steps.push(json!({"op": "block (honest, contains the funding tx)"}));
+                }
+                "close" if funding_block.is_some() && closing_block.is_none() => {
+                    let ok = deliver(&node, vec![closing_tx.clone()], None);
+                    if ok {
+                        closing_block = Some(nblocks);
+                        nblocks += 1;
+                    }
+                    steps.push(json!({"op": "block (honest, spends the funding output)", "accepted": ok}));
+                }
+                "forge" if funding_block.is_none() => {
+                    // real block: filler only; the proof claims the funding tx is in it
+                    let ok = deliver(&node, vec![], Some(vec![funding_tx.clone()]));
+                    if ok {
+                        forged_accepted += 1;
+                    } else {
+                        forged_refused += 1;
+                        // the node has to tell the truth to get on: the same block, honest proof
+                        assert!(deliver(&node, vec![], None), "honest re-delivery");
+                    }
+                    nblocks += 1;
+                    steps.push(json!({"op": "block (header of a filler-only block, proof claims the funding tx)", "accepted": ok}));
+                }
+                "forge-no-close" if funding_block.is_some() && closing_block.is_none() => {
+                    // real block spends the funding output; the proof leaves the spend out
+                    let ok = deliver(&node, vec![closing_tx.clone()], Some(vec![]));
+                    if ok {
+                        forged_accepted += 1;
+                    } else {
+                        forged_refused += 1;
+                        assert!(deliver(&node, vec![closing_tx.clone()], None), "honest re-delivery");
+                    }
+                    closing_block = Some(nblocks);
+                    nblocks += 1;
+                    steps.push(json!({"op": "block (spends the funding output, proof leaves the spend out)", "accepted": ok}));
+                }
+                "restart" => {
+                    drop(node);
+                    node = world.restart(&node_id);
+                    restarts += 1;
+                    steps.push(json!({"op": "restart from the store"}));
+                }
+                "sign0" | "sign1" => {
+                    let n: u64 = if op == "sign0" { 0 } else { 1 };
+                    // chain state by the harness's own record
+                    let cs = Chain {
+                        current_height: 0,
+                        funding_depth: funding_block.map(|b| (nblocks - b) as u32).unwrap_or(0),
+                        closing_depth: closing_block.map(|b| (nblocks - b) as u32).unwrap_or(0),
+                    };
+                    let r = catch_unwind(AssertUnwindSafe(|| {
+                        node.with_channel(&channel_id, |chan| {
+                            chan.sign_counterparty_commitment_tx_phase2(&point, n, info.feerate, info.to_countersigner, info.to_broadcaster, vec![], vec![])
+                        })
+                    }));
+                    let (o, status): (u64, String) = match &r {
+                        Err(_) => (1, "panic".to_string()),
+                        Ok(Ok(_)) => (0, String::new()),
+                        Ok(Err(e)) => (2, format!("{:?}: {}", e.code(), e.message()).chars().take(160).collect()),
+                    };
+                    *dist.entry(format!("sign{}:funded={}:closed={}:{}", n, cs.funding_depth > 0, cs.closing_depth > 0, o)).or_insert(0) += 1;
+                    coq_terms.push(format!(
+                        "(({}, {}, {}), (true, {}, {}, {}, {}, {}), {})",
+                        profile_name(),
+                        coq_rules(&pol.rules),
+                        coq_pol(&pol),
+                        coq_est(&est),
+                        coq_setup(&s),
+                        coq_chain(&cs),
+                        n,
+                        coq_info(&info),
+                        o
+                    ));
+                    if o == 0 {
+                        let case = Case { pol: pol.clone(), entry: 2, est: est.clone(), setup: s.clone(), cs: cs.clone(), n, info: info.clone() };
+                        let (rv, _) = reference_violations(&case, release);
+                        for m in not_downgraded(&pol.rules, rv) {
+                            viols.push(format!(
+                                "counterparty commitment {} signed; by the harness's record of the chain the funding tx is {} and its output is {}: {}",
+                                n,
+                                if cs.funding_depth > 0 { "in a block" } else { "in NO block" },
+                                if cs.closing_depth > 0 { "spent" } else { "unspent" },
+                                m
+                            ));
+                        }
+                        if n >= 1 {
+                            signed_beyond_initial += 1;
+                        }
+                        if n == est.next_cp_commit {
+                            est.next_cp_commit = n + 1;
+                            est.cp_point = 1;
+                            est.cp_info_same = true;
+                        }
+                    }
+                    steps.push(json!({"op": format!("sign_counterparty_commitment_tx_phase2(commitment {})", n),
+                        "own_record": {"funding_depth": cs.funding_depth, "closing_depth": cs.closing_depth},
+                        "observed": (["signed", "panic", "refused"][o as usize]), "status": status}));
+                }
+                _ => {}
+            }
+        }
+        if !viols.is_empty() {
+            monitor_failures += 1;
+        }
+        emit(
+            "CASE",
+            json!({"id": id, "kind": "chainlife", "validator": "onchain", "persister": "KVVPersister<MemoryKVVStore, JsonFormat>",
+                   "channel": {"channel_value_sat": cv, "is_outbound": true, "to_holder_value_sat": to_holder},
+                   "steps": steps, "monitor_violation": viols, "coq": coq_terms}),
+        );
+    }
+    emit("STATS", json!({"kind": "chainlife", "profile": profile_name(), "observed_distribution": dist, "restarts": restarts,
+        "forged_blocks_refused": forged_refused, "forged_blocks_accepted": forged_accepted,
+        "signed_beyond_initial": signed_beyond_initial, "monitor_failures": monitor_failures}));
+}
+
 fn main() {
     std::panic::set_hook(Box::new(|_| {}));
     let argv: Vec<String> = std::env::args().collect();
@@ -2627,6 +2863,7 @@ fn main() {
         "life" => life_domain(&args),
         "wire" => wire_domain(&args),
         "signed" => signed_domain(&args),
+        "chainlife" => chainlife_domain(&args),
         other => {
             eprintln!("unknown sub-domain {}", other);
             std::process::exit(2)
